@@ -26,7 +26,7 @@ from fractions import Fraction
 
 from hypothesis import strategies as st
 
-from ..harness import Crash, Sub, Violation
+from ..harness import Crash, Inconclusive, Sub, Violation
 from ..oracles import graphs_rs as G
 from .. import budget
 from ..shadow import HarnessError
@@ -1018,6 +1018,27 @@ def run_mst(desc, ctx):
     ctx.label(f"status-{stt}")
 
 
+def _pagerank_knife_edge(n, edges, d, tol, max_iter):
+    """Exact (Fraction) power iteration, multigraph reading, uniform dangling redistribution: is the first
+    iteration whose max-norm step is not clearly above tol within 1e-9*tol of tol itself?"""
+    D, T = Fraction(d), Fraction(tol)
+    out = Counter(u for u, _ in edges)
+    s = [Fraction(1, n)] * n
+    for _ in range(min(max_iter, 200)):
+        new = [(1 - D) / n] * n
+        dang = sum(s[u] for u in range(n) if out[u] == 0)
+        for u, v in edges:
+            new[v] += D * s[u] / out[u]
+        new = [x + D * dang / n for x in new]
+        step = max(abs(a - b) for a, b in zip(new, s))
+        if abs(step - T) <= T / 10**9:
+            return True
+        if step < T:
+            return False
+        s = new
+    return False
+
+
 def run_pr(desc, ctx):
     fname = "pagerank_edges"
     n, d, tol, mi = desc["n"], desc["damping"], desc["tol"], desc["max_iter"]
@@ -1046,6 +1067,11 @@ def run_pr(desc, ctx):
     sts = {b: _status(r) for b, r in res.items()}
     ctx.label("statuses-" + "/".join(sorted(set(sts.values()))))
     if len(set(sts.values())) > 1:
+        if _pagerank_knife_edge(n, edges, d, tol, mi):
+            # the step that decides convergence equals tol up to float rounding (|step - tol| <= 1e-9*tol in exact
+            # arithmetic): which side of the strict '<' a back-end lands on depends on summation order, not on meaning
+            ctx.label("pagerank-stop-decided-by-float-rounding")
+            raise Inconclusive("pagerank status differs at a float knife-edge (step == tol in exact arithmetic)")
         raise Violation(f"{fname}:status-differs", {"statuses": sts, "l1": {b: sum(abs(x - y) for x, y in zip(vec[b], vec["python"])) for b in BACKENDS[1:]}, "results": _showall(res)})
     # Both converged (or both did exactly max_iter rounds of the same update from the same start): the distance bound
     # of two converged power iterations, see oracles.graphs_rs.pagerank_bound.
